@@ -597,6 +597,11 @@ def run():
                     ev_cases.setdefault(expr, ("pair", (e["name"], pos_draws[k] + 1), "gen_table_name", src_i))
                     ck.stat("namegen-model", "gen_table_name/" + ("first" if run_start == pos_draws[k] else "skipped-reserved"))
                     run_start = None
+                # the call has no event of its own: its result is the alias of a derived table in the emitted SQL
+                import re as _re
+                in_sql = _re.search(r"\) AS " + _re.escape(e["name"]) + r"(?![\w])", a["ok"]) is not None
+                if in_sql != e["accepted"]:
+                    bad("gen_table_name drew %r (accepted=%s) but the SQL %s it as the alias of a sub-query" % (e["name"], e["accepted"], "uses" if in_sql else "does not use"), event=e, sql=a["ok"])
         # ---- assign_names: the whole loop as one model run (list level), state from the start / end events
         an = [(k, e) for k, (h, e) in enumerate(evs) if h == "namegen" and e["site"] == "assign_names"]
         if an:
